@@ -249,3 +249,96 @@ impl<T> UninitRefMut<T> for SimBuf<'_, T> {
         self.u.record(idx, v)
     }
 }
+
+// ---------------------------------------------------------------------------------------
+// A second simulator-owned container that implements only the *required* items of the
+// library's Vec1 trait and inherits every default (collect_from_trusted, try_collect_*,
+// collect_with_len, collect_from_opt_iter, empty, full): the defaults are library code that
+// none of the built-in back ends reaches for collect_from_trusted / try_collect_from_trusted.
+
+#[derive(Debug, Clone)]
+pub struct PlainVec<T> {
+    pub items: Vec<T>,
+}
+
+impl<T> GetLen for PlainVec<T> {
+    fn len(&self) -> usize {
+        self.items.len()
+    }
+}
+
+impl<T: Clone> TIter<T> for PlainVec<T> {
+    fn titer(&self) -> impl TIterator<Item = T> + '_ {
+        self.items.iter().cloned()
+    }
+}
+
+impl<T: Clone> Vec1View<T> for PlainVec<T> {
+    type SliceOutput<'a>
+        = &'a [T]
+    where
+        Self: 'a;
+
+    fn slice<'a>(&'a self, start: usize, end: usize) -> TResult<&'a [T]>
+    where
+        T: 'a,
+    {
+        Ok(&self.items[start..end])
+    }
+
+    fn get_backend_name(&self) -> &'static str {
+        "plainvec"
+    }
+
+    unsafe fn uget(&self, index: usize) -> T {
+        self.items[index].clone()
+    }
+}
+
+pub struct PlainUninit<T>(pub SimUninit<T>);
+
+impl<T> GetLen for PlainUninit<T> {
+    fn len(&self) -> usize {
+        self.0.slots.len()
+    }
+}
+
+impl<T: Clone + Obsable> UninitVec<T> for PlainUninit<T> {
+    type Vec = PlainVec<T>;
+
+    unsafe fn assume_init(self) -> PlainVec<T> {
+        PlainVec { items: self.0.slots.into_iter().flatten().collect() }
+    }
+
+    unsafe fn uset(&mut self, idx: usize, v: T) {
+        unsafe { UninitVec::uset(&mut self.0, idx, v) }
+    }
+}
+
+impl<T: Clone + Obsable> Vec1<T> for PlainVec<T> {
+    type Uninit = PlainUninit<T>;
+    type UninitRefMut<'a>
+        = SimBuf<'a, T>
+    where
+        T: 'a;
+
+    fn collect_from_iter<I: Iterator<Item = T>>(iter: I) -> Self {
+        // plain safe iteration; the size hint is not looked at
+        let mut items = Vec::new();
+        for v in iter {
+            items.push(v);
+            if items.len() > DRAIN_LIMIT + 16 {
+                break;
+            }
+        }
+        PlainVec { items }
+    }
+
+    fn uninit(len: usize) -> PlainUninit<T> {
+        PlainUninit(SimUninit::new(len))
+    }
+
+    fn uninit_ref_mut(uninit_vec: &mut PlainUninit<T>) -> SimBuf<'_, T> {
+        SimBuf { u: &mut uninit_vec.0 }
+    }
+}
